@@ -225,16 +225,17 @@ pub fn scenario_strategy(modes: Modes, max_faults: usize) -> impl Strategy<Value
                 proptest::collection::vec(fault_strategy(30, crc), 0..=max_faults),
                 proptest::sample::select(vec![0u64, 1, 1, 1, 10]),
                 0u64..6,
-                (proptest::sample::select(vec![1u8, 2, 4, 8]), proptest::sample::select(vec![1u8, 2, 4, 8])),
+                (proptest::sample::select(vec![1u8, 2, 4, 8]), proptest::sample::select(vec![1u8, 2, 4, 8]), proptest::sample::select(vec![0u8, 0, 0, 2, 3, 4])),
             )
         })
-        .prop_map(move |(cfg, rnak, pick, seed, unack, class, faults, tau, lat, (idw, seqw))| {
+        .prop_map(move |(cfg, rnak, pick, seed, unack, class, faults, tau, lat, (idw, seqw, yields))| {
             let mut rcfg = cfg.clone();
             rcfg.nak = rnak;
             let mut sc = Scenario::two_entities(cfg.clone(), rcfg.clone());
             sc.seed = seed;
             sc.tau_ms = tau;
             sc.lat_ms = lat;
+            sc.yields = yields;
             for e in sc.entities.iter_mut() {
                 e.id_width = idw;
                 e.seq_width = seqw;
@@ -294,6 +295,7 @@ pub fn scenario_from_tape(t: &mut crate::wire::Tape) -> Scenario {
     sc.seed = t.u16() as u64;
     sc.tau_ms = [0u64, 1, 1, 1, 10][t.below(5)];
     sc.lat_ms = t.below(6) as u64;
+    sc.yields = [0u8, 0, 2, 3][t.below(4)];
     let idw = [1u8, 2, 4, 8][t.below(4)];
     let seqw = [1u8, 2, 4, 8][t.below(4)];
     for e in sc.entities.iter_mut() {
